@@ -49,12 +49,13 @@ def run(ck, prop, tier, seed, replay):
         fcases = envcheck.run_harness(ck, "mem", [["-seed", str(seed + 3), "-n", "600" if tier == "quick" else "6000", "-x", "faults"]])
         if fcases is None:
             return None
-        gone = [c for c in fcases if any("still mapped" in v for v in c.get("viol") or [])]
-        ck.oblige(not gone, "a Close that reports success leaves nothing mapped, whatever failed before it (%d faulted histories)" % len(fcases), json.dumps(gone[:1])[:2000])
+        c11_clauses = ("still mapped", "did not see the original bytes")   # "gone on Close", "readers always see the original bytes"
+        gone = [c for c in fcases if any(k in v for v in c.get("viol") or [] for k in c11_clauses)]
+        ck.oblige(not gone, "a Close that reports success leaves nothing mapped and every reader that is let in sees the original bytes, whatever failed before (%d faulted histories)" % len(fcases), json.dumps(gone[:1])[:2000])
         ck.cov["faulted_histories_judged_for_gone_on_close"] = len(fcases)
         if gone:
             g = dict(gone[0])
-            g["viol"] = [v for v in g["viol"] if "still mapped" in v]
+            g["viol"] = [v for v in g["viol"] if any(k in v for k in c11_clauses)]
             ck.violation(ck.replay_file("impl", {"what": g["viol"], "Case": g}))
     viol = [c for c in cases if c.get("viol")]
     # the model tracks one live secret: compare protectedmemory cases (failed creations are compared on their first op only)
